@@ -435,7 +435,7 @@ func (p *pool) coqRefs(style string, auth bool, sender *env.Key, rcpts []*env.Ke
 		if style == "diddoc" {
 			if !seen[k.KeyDID()] {
 				seen[k.KeyDID()] = true
-				docs = append(docs, fmt.Sprintf("mkdoc %s [mkvm false %s %d]", coqStr(k.KeyDID(), "."), coqStr("key-1", "-"), k.Name))
+				docs = append(docs, fmt.Sprintf("mkdoc %s [mkvm false %s %d true]", coqStr(k.KeyDID(), "."), coqStr("key-1", "-"), k.Name))
 			}
 
 			return
@@ -449,8 +449,13 @@ func (p *pool) coqRefs(style string, auth bool, sender *env.Key, rcpts []*env.Ke
 		seen[did] = true
 
 		var vms []string
-		for _, x := range p.w.PartyKeys(k.Owner) {
-			vms = append(vms, fmt.Sprintf("mkvm %s %s %d", hx.CoqBool(k.Owner%2 == 1), coqStr(x.Fragment(), "-"), x.Name))
+		for _, e := range p.w.PartyDoc(k.Owner) {
+			name := 0
+			if e.Key != nil {
+				name = e.Key.Name
+			}
+
+			vms = append(vms, fmt.Sprintf("mkvm %s %s %d %s", hx.CoqBool(k.Owner%2 == 1), coqStr(e.Frag, "-"), name, hx.CoqBool(e.Key != nil)))
 		}
 
 		docs = append(docs, fmt.Sprintf("mkdoc %s %s", coqStr(did, "."), hx.CoqList(vms)))
